@@ -18,6 +18,19 @@
 (* nothing stops the loop.  TLC enumerates the kinds as an environment        *)
 (* choice: all vectors over Outcomes up to FullUpTo services, and for more    *)
 (* services vectors over PlainKinds plus one other kind at a time.            *)
+(*                                                                            *)
+(* Registration is part of the behaviour: before Handle the caller executes a *)
+(* `plan` of Add calls.  Each Add passes a group of services as a spread      *)
+(* slice: a fresh one, or the caller's reusable buffer `mem` (filled from     *)
+(* index 0, spare capacity behind); AFTER Add has returned the caller may     *)
+(* keep, zero or overwrite (with a decoy service) what it passed; Add() and   *)
+(* Add(nil...) may be mixed in.  Requirement: the handler's registered        *)
+(* sequence is the concatenation of the groups as they were AT Add time -     *)
+(* services are numbered in that order, so it must be <<1, ..., n>> whatever   *)
+(* the caller does to its buffer later.  AddAliases = TRUE models a handler   *)
+(* that keeps the caller's slice instead of copying (`h.services = svcs`      *)
+(* when nothing is registered yet): kept to show on the design what the       *)
+(* registration patterns are for.                                             *)
 EXTENDS Integers, Sequences, FiniteSets
 
 CONSTANTS MaxServices,   \* services 0..MaxServices are registered
@@ -30,79 +43,170 @@ CONSTANTS MaxServices,   \* services 0..MaxServices are registered
           MaxPre,        \* at most this many non-shutdown signals before the shutdown signal
           TrailSigs,     \* signals that may follow the shutdown signal
           MaxTrail,      \* at most this many of them
-          PanicAborts    \* FALSE = the code as it is; TRUE = the defect fixed by b5e2710 (for demonstration)
+          PanicAborts,   \* FALSE = the code as it is; TRUE = the defect fixed by b5e2710 (for demonstration)
+          RegSplits,     \* how 1..n is split into Add calls: subset of {"each", "all", "any"}
+          RegBufs,       \* what is passed: subset of {"fresh", "reuse"} (reuse = the caller's buffer from index 0)
+          RegAfters,     \* what the caller does to the passed slice after Add returned: {"keep", "zero", "decoy"}
+          RegEmpties,    \* subset of BOOLEAN: TRUE = Add() / Add(nil...) before every group and at the end
+          AddAliases     \* FALSE = Add appends (copies); TRUE = the first Add keeps the caller's slice (demonstration)
 
 VARIABLES n,         \* number of registered services
           outcome,   \* outcome[i], i \in 1..n, in registration order
           script,    \* the signals the notifier is going to deliver
           sent,      \* how many of them have been put into the channel
           chan,      \* the channel's buffer (capacity 1)
-          phase,     \* "waiting" (in `for sig := range h.signal`), "shutting", "returned"
+          phase,     \* "registering", "waiting" (in `for sig := range h.signal`), "shutting", "returned"
+          plan,      \* the Add calls still to be made
+          plan0,     \* the whole plan (for the generator)
+          regOwn,    \* Go: h.services when it has storage of its own
+          regLen,    \* Go: len(h.services)
+          regAlias,  \* h.services is a view of the caller's buffer mem[1..regLen] (only with AddAliases)
+          mem,       \* the caller's reusable buffer: service numbers, 0 = nil, -1 = a decoy service
           idx,       \* Go: i+1 of the loop in shutdown(); 0 = loop finished
           failed,    \* Go: status == ExitCodeFailure
           calls,     \* calls[i] = number of Shutdown calls service i has received
           order,     \* sequence of service indices in the order they were called
           status     \* -1 until Handle returns, then 0 (success) or 1 (failure)
 
-svars == <<n, outcome, script, sent, chan, phase, idx, failed, calls, order, status>>
+regvars == <<plan, plan0, regOwn, regLen, regAlias, mem>>
+svars == <<n, outcome, script, sent, chan, phase, idx, failed, calls, order, status, regvars>>
+
+BufCap == MaxServices + 2
+(* Go: h.services *)
+RegValue == IF regAlias THEN SubSeq(mem, 1, regLen) ELSE regOwn
+Ident(k) == [j \in 1..k |-> j]
+
+(* Registration plans. *)
+RECURSIVE Comps(_)
+Comps(m) == IF m = 0 THEN {<<>>} ELSE UNION {{<<f>> \o c : c \in Comps(m - f)} : f \in 1..m}
+Splits(k) == (IF "each" \in RegSplits THEN {[j \in 1..k |-> 1]} ELSE {})
+             \cup (IF "all" \in RegSplits THEN {IF k = 0 THEN <<>> ELSE <<k>>} ELSE {})
+             \cup (IF "any" \in RegSplits THEN Comps(k) ELSE {})
+RECURSIVE SumTo(_, _)
+SumTo(c, j) == IF j = 0 THEN 0 ELSE SumTo(c, j - 1) + c[j]
+Group(c, j) == [i \in 1..c[j] |-> SumTo(c, j - 1) + i]
+EmptyOp(j) == [op |-> "empty", ids |-> <<>>, buf |-> IF j % 2 = 1 THEN "none" ELSE "nilslice", after |-> "keep"]
+RECURSIVE BuildPlan(_, _, _, _, _)
+BuildPlan(c, j, b, a, e) ==
+    IF j > Len(c) THEN (IF e THEN <<EmptyOp(j)>> ELSE <<>>)
+    ELSE (IF e THEN <<EmptyOp(j)>> ELSE <<>>)
+         \o <<[op |-> "add", ids |-> Group(c, j), buf |-> b, after |-> a]>>
+         \o BuildPlan(c, j + 1, b, a, e)
+Plans(k) == {BuildPlan(c, 1, b, a, e) : c \in Splits(k), b \in RegBufs, a \in RegAfters, e \in RegEmpties}
 
 SeqsUpTo(S, k) == UNION {[1..m -> S] : m \in 0..k}
 
 Scripts == {pre \o <<s>> \o post : pre \in SeqsUpTo(OtherSigs, MaxPre), s \in ShutSigs,
                                    post \in SeqsUpTo(TrailSigs, MaxTrail)}
 
-SNew(k, oc) ==
+SNew(k, oc, p) ==
     /\ n = k /\ outcome = oc
-    /\ sent = 0 /\ chan = <<>> /\ phase = "waiting" /\ idx = 0 /\ failed = FALSE
+    /\ sent = 0 /\ chan = <<>> /\ phase = "registering" /\ idx = 0 /\ failed = FALSE
     /\ calls = [i \in 1..k |-> 0] /\ order = <<>> /\ status = -1
+    /\ plan = p /\ plan0 = p /\ regOwn = <<>> /\ regLen = 0 /\ regAlias = FALSE
+    /\ mem = [i \in 1..BufCap |-> 0]
 
 KindVectors(k) == {oc \in [1..k -> Outcomes] :
                       k <= FullUpTo \/ Cardinality({oc[i] : i \in 1..k} \ PlainKinds) <= 1}
 
-SInit == /\ \E k \in 0..MaxServices : \E oc \in KindVectors(k) : SNew(k, oc)
+SInit == /\ \E k \in 0..MaxServices : \E oc \in KindVectors(k) : \E p \in Plans(k) : SNew(k, oc, p)
          /\ script \in Scripts
+
+(* One Add call of the plan, together with what the caller does to its slice  *)
+(* before (filling the reused buffer) and after it.                           *)
+AddStep ==
+    /\ phase = "registering" /\ plan # <<>>
+    /\ plan' = Tail(plan)
+    /\ LET o == Head(plan)
+           g == o.ids
+           m == Len(g)
+           reuse == o.op = "add" /\ o.buf = "reuse"
+           \* the caller fills its buffer from index 0 - an aliasing handler sees that at once
+           mem1 == IF reuse THEN [i \in 1..BufCap |-> IF i <= m THEN g[i] ELSE mem[i]] ELSE mem
+           cur == IF regAlias THEN SubSeq(mem1, 1, regLen) ELSE regOwn
+           Clob(v) == IF o.after = "zero" THEN 0 ELSE IF o.after = "decoy" THEN -1 ELSE v
+           After(mm) == IF reuse THEN [i \in 1..BufCap |-> IF i <= m THEN Clob(mm[i]) ELSE mm[i]] ELSE mm
+       IN IF o.op = "empty"
+            THEN UNCHANGED <<regOwn, regLen, regAlias, mem>>
+          ELSE IF ~AddAliases
+            THEN \* `h.services = append(h.services, svcs...)`: the handler has its own copy
+                 /\ regOwn' = cur \o g /\ regLen' = Len(cur) + m /\ regAlias' = FALSE
+                 /\ mem' = After(mem1)
+          ELSE IF Len(cur) = 0
+            THEN \* `h.services = svcs`: the caller's slice becomes the handler's storage
+                 IF reuse THEN /\ regAlias' = TRUE /\ regLen' = m /\ regOwn' = <<>>
+                               /\ mem' = After(mem1)
+                          ELSE /\ regAlias' = FALSE /\ regLen' = m
+                               /\ regOwn' = [i \in 1..m |-> Clob(g[i])]
+                               /\ mem' = mem1
+          ELSE IF regAlias /\ regLen + m <= BufCap
+            THEN \* append in place into the spare capacity of the caller's buffer
+                 /\ regAlias' = TRUE /\ regLen' = regLen + m /\ regOwn' = <<>>
+                 /\ mem' = After([i \in 1..BufCap |-> IF i > regLen /\ i <= regLen + m THEN g[i - regLen] ELSE mem1[i]])
+            ELSE /\ regOwn' = cur \o g /\ regLen' = Len(cur) + m /\ regAlias' = FALSE
+                 /\ mem' = After(mem1)
+    /\ UNCHANGED <<n, outcome, script, sent, chan, phase, idx, failed, calls, order, status, plan0>>
+
+(* Add(g) as the requirement sees it (used by trace validation). *)
+AddGroup(g) ==
+    /\ phase = "registering"
+    /\ regOwn' = RegValue \o g /\ regLen' = regLen + Len(g) /\ regAlias' = FALSE
+    /\ UNCHANGED <<n, outcome, script, sent, chan, phase, idx, failed, calls, order, status, plan, plan0, mem>>
+
+(* Handle is called. *)
+StartHandle ==
+    /\ phase = "registering" /\ plan = <<>>
+    /\ phase' = "waiting"
+    /\ UNCHANGED <<n, outcome, script, sent, chan, idx, failed, calls, order, status, regvars>>
 
 (* The notifier relays a signal into the channel (waits for room). *)
 Send(sig) ==
     /\ chan = <<>>
     /\ chan' = <<sig>>
     /\ sent' = sent + 1
-    /\ UNCHANGED <<n, outcome, script, phase, idx, failed, calls, order, status>>
+    /\ UNCHANGED <<n, outcome, script, phase, idx, failed, calls, order, status, regvars>>
 
-SendNext == sent < Len(script) /\ Send(script[sent + 1])
+(* (A signal that arrives before Handle is called waits in the channel's       *)
+(* buffer - no different from arriving right after; the script starts then.)  *)
+SendNext == phase # "registering" /\ sent < Len(script) /\ Send(script[sent + 1])
 
 (* `for sig := range h.signal { if IsShutdownSignal(sig) { return h.shutdown(ctx) } }` *)
 Receive ==
     /\ phase = "waiting" /\ chan # <<>>
     /\ chan' = <<>>
     /\ IF Head(chan) \in ShutSigs
-         THEN phase' = "shutting" /\ idx' = n /\ failed' = FALSE
+         THEN phase' = "shutting" /\ idx' = regLen /\ failed' = FALSE
          ELSE UNCHANGED <<phase, idx, failed>>
-    /\ UNCHANGED <<n, outcome, script, sent, calls, order, status>>
+    /\ UNCHANGED <<n, outcome, script, sent, calls, order, status, regvars>>
 
-(* One iteration of `for i := len(h.services) - 1; i >= 0; i--`. *)
+(* One iteration of `for i := len(h.services) - 1; i >= 0; i--`: service      *)
+(* number i = h.services[idx-1] is shut down.  (i outside 1..n - a nil entry  *)
+(* or a decoy - can only be met with AddAliases.)                             *)
 ShutdownOne(i) ==
-    /\ phase = "shutting" /\ idx >= 1 /\ i = idx
-    /\ calls' = [calls EXCEPT ![i] = @ + 1]
+    /\ phase = "shutting" /\ idx >= 1 /\ i = RegValue[idx]
     /\ order' = Append(order, i)
-    /\ IF PanicAborts /\ outcome[i] \in PanicKinds
-         THEN \* before b5e2710: the deferred recover in Handle swallows the panic
-              /\ phase' = "returned" /\ status' = 0 /\ idx' = 0 /\ UNCHANGED failed
-         ELSE /\ failed' = (failed \/ outcome[i] # "nil")
-              /\ idx' = idx - 1
-              /\ UNCHANGED <<phase, status>>
-    /\ UNCHANGED <<n, outcome, script, sent, chan>>
+    /\ IF i \notin 1..n
+         THEN /\ failed' = TRUE /\ idx' = idx - 1 /\ UNCHANGED <<calls, phase, status>>
+         ELSE /\ calls' = [calls EXCEPT ![i] = @ + 1]
+              /\ IF PanicAborts /\ outcome[i] \in PanicKinds
+                   THEN \* before b5e2710: the deferred recover in Handle swallows the panic
+                        /\ phase' = "returned" /\ status' = 0 /\ idx' = 0 /\ UNCHANGED failed
+                   ELSE /\ failed' = (failed \/ outcome[i] # "nil")
+                        /\ idx' = idx - 1
+                        /\ UNCHANGED <<phase, status>>
+    /\ UNCHANGED <<n, outcome, script, sent, chan, regvars>>
 
 Return ==
     /\ phase = "shutting" /\ idx = 0
     /\ phase' = "returned"
     /\ status' = IF failed THEN 1 ELSE 0
-    /\ UNCHANGED <<n, outcome, script, sent, chan, idx, failed, calls, order>>
+    /\ UNCHANGED <<n, outcome, script, sent, chan, idx, failed, calls, order, regvars>>
 
-HandlerStep == Receive \/ (\E i \in 1..n : ShutdownOne(i)) \/ Return
-SNext == SendNext \/ HandlerStep
+RegStep == AddStep \/ StartHandle
+HandlerStep == Receive \/ (\E i \in -1..n : ShutdownOne(i)) \/ Return
+SNext == RegStep \/ SendNext \/ HandlerStep
 
-SSpec == SInit /\ [][SNext]_svars /\ WF_svars(SendNext) /\ WF_svars(HandlerStep)
+SSpec == SInit /\ [][SNext]_svars /\ WF_svars(RegStep) /\ WF_svars(SendNext) /\ WF_svars(HandlerStep)
 
 ----------------------------------------------------------------------------
 (* Property C18, signal handler half. *)
@@ -111,15 +215,21 @@ IsPrefix(s, t) == Len(s) <= Len(t) /\ \A j \in 1..Len(s) : s[j] = t[j]
 ShutdownSent == \E j \in 1..sent : script[j] \in ShutSigs
 
 STypeOK == /\ n \in 0..MaxServices /\ sent \in 0..Len(script) /\ Len(chan) <= 1
-           /\ idx \in 0..n /\ status \in {-1, 0, 1}
-           /\ phase \in {"waiting", "shutting", "returned"}
+           /\ idx \in 0..BufCap /\ status \in {-1, 0, 1}
+           /\ phase \in {"registering", "waiting", "shutting", "returned"}
+           /\ regLen = Len(RegValue)
+
+(* The registered sequence is the concatenation of the groups as they were at *)
+(* Add time - at every moment, whatever the caller does to its buffer.        *)
+Registered == /\ RegValue = Ident(regLen)
+              /\ (phase # "registering") => regLen = n
 
 (* "calls Shutdown exactly once on every registered service": never twice... *)
 AtMostOnce == \A i \in 1..n : calls[i] <= 1
 
 (* "ignores non-shutdown signals": nothing is touched before a shutdown       *)
 (* signal has been delivered.                                                 *)
-NothingBeforeShutdownSignal == (order # <<>> \/ phase # "waiting") => ShutdownSent
+NothingBeforeShutdownSignal == (order # <<>> \/ phase \notin {"registering", "waiting"}) => ShutdownSent
 
 (* "in reverse registration order" - at every moment, not just at the end. *)
 ReverseOrder == IsPrefix(order, Descending(n))
